@@ -36,7 +36,7 @@ var commonAssumptions = []string{
 var All = []*Prop{
 	{
 		ID:    "C08",
-		Rules: []*core.Rule{rules.UnwindAgree, rules.UncatchableClose, rules.IterPop, rules.CtxFields},
+		Rules: []*core.Rule{rules.UnwindAgree, rules.UncatchableClose, rules.IterPop, rules.IterProto, rules.CtxFields},
 		Explanation: "R-UNWINDAGREE: the two compile-time walkers of the block stack (break/continue and return) emit, for every block kind, clean-up instructions with the same effect on vm.tryStack / vm.iterStack (effects derived from the exec methods): a kind unwound by one exit kind and not the other skips a finally or leaves an iterator open. " +
 			"R-UNCATCHABLECLOSE ('interrupts and stack overflows run none of them'): iterator-closing code on exceptional paths is guarded by a classification excluding uncatchable payloads. " +
 			"R-ITERPOP ('exactly once'): an instruction that pops an iterator record removes it from vm.iterStack before any call that can throw a JS exception past it. " +
